@@ -231,6 +231,40 @@ def run(ctx):
         if len(set(cs)) != 1:
             ctx.add_failing("kk-cnls-depends-on-schedule", {"results": [s[:3] for s in cs]}, observed="different", expected="identical")
 
+    # ---- repeated with other work in between: A, then B (same shape, other values / other frequency range), then A again
+    from pyimpspec import calculate_drt
+    other = generate_mock_data("CIRCUIT_2", noise=5e-2, seed=43)[0]
+    fo, Zo = other.get_frequencies(), other.get_impedances()
+    n_ = min(len(data.get_frequencies()), len(fo))
+    dA = DataSet(data.get_frequencies()[:n_], data.get_impedances()[:n_], label="A")
+    variants_B = [DataSet(dA.get_frequencies(), 3.7 * Zo[:n_], label="B same grid"), DataSet(10.0 * fo[:n_], Zo[:n_], label="B other range")]
+    entries = [
+        ("kk complex-inv", lambda d: ksig(perform_kramers_kronig_test(d, test="complex-inv", num_RC=8, add_inductance=True, num_F_ext_evaluations=0, num_procs=1))),
+        ("kk real", lambda d: ksig(perform_kramers_kronig_test(d, test="real", num_RC=8, num_F_ext_evaluations=0, num_procs=1))),
+        ("kk default", lambda d: ksig(perform_kramers_kronig_test(d, num_procs=1))),
+        ("zhit whithend", lambda d: zsig(perform_zhit(d, smoothing="whithend", interpolation="makima", window="boxcar", num_procs=1))),
+        ("zhit default", lambda d: zsig(perform_zhit(d, num_procs=1))),
+        ("drt tr-nnls", lambda d: tuple(np.round(calculate_drt(d, method="tr-nnls", mode="real").get_drt_data()[1], 12).tolist())),
+        ("drt lm", lambda d: tuple(np.round(np.sort(calculate_drt(d, method="lm", num_procs=1).get_peaks()[0]), 12).tolist())),
+        ("fit", lambda d: fsig(fit_circuit(parse_cdc("R(RC)(RW)"), d, method="least_squares", weight="boukamp", num_procs=1))),
+    ]
+    for name, fn in (entries if big else entries[:2] + rnd.sample(entries[2:], 3)):
+        try:
+            first = fn(dA)
+            for dB in variants_B:
+                try:
+                    fn(dB)
+                except Exception:  # noqa
+                    pass
+            again = fn(dA)
+        except Exception as x:  # noqa
+            ctx.count("interleaved:skipped:" + type(x).__name__)
+            continue
+        ctx.count("interleaved")
+        ctx.note_case(("interleaved", name))
+        if first != again:
+            ctx.add_failing("result-depends-on-earlier-calls", {"entry": name}, observed="the same call on the same data gives another result after other data were analysed in between", expected="identical",
+                            clause="given the same inputs every analysis returns the same result when repeated")
     # ---- mock data: every seed (0, small, negative, beyond 32 bits) reproduces its data bit for bit; seeds differ
     seeds = [0, 1, 7, rnd.randrange(2, 10 ** 6), -rnd.randrange(1, 1000), 2 ** 31 - 1, 2 ** 32 + rnd.randrange(1, 100)]
     for ident in ("CIRCUIT_1", "CIRCUIT_2_INVALID", "CIRCUIT_5"):
